@@ -237,6 +237,8 @@ def obligations(tier):
     NSH = 4
     depths = (0, 1) if tier == "quick" else (0, 1, 2)
     for d in (0, 1, 2) if tier == "quick" else (0, 1, 2, 3):
+        # thorough: histories of 3 for nesting depth 0-1, of 2 for depth 2-3 (3 operations at depth 2-3 ran past 40 minutes per shard)
+        nops = 3 if (tier == "thorough" and d <= 1) else 2
         for u in (False, True):
             warm_seq = [(u, d, 5, a, b, 2, f) for a in range(6) for b in (0, 2, 4) for f in (-1, 1, 2)]
             obs.append(Ob(f"C20.seq.h{nops}.depth{d}.{'user-reducer' if u else 'absent'}", make_seq(nops, d, u), warm_seq, f"history of {nops} copying operations (symbolic selectors over {OPS}) on a value nesting spec instances in lists/dicts to depth {d} with module-valued attributes; dispatch-table baseline: {'user reducer registered' if u else 'entry absent'}; the last operation aborted by __post_copy__ raising at its fail_at-th invocation (symbolic in 1..3, or never)", expect={"ok", "aborted"}, timeout=T))
@@ -245,11 +247,15 @@ def obligations(tier):
         for d in depths:
             if tier == "quick" and (opname, d) not in (("deepcopy", 1), ("with", 0)):
                 continue
+            if tier == "thorough" and d == 2 and opname != "deepcopy":
+                continue  # depth 2 only for deepcopy (sizing: the full op x depth grid ran past 75 minutes)
             for sh in range(NSH):
                 obs.append(Ob(f"C20.fault.{opname}.depth{d}.shard{sh}of{NSH}", make_fault(opname, d, (sh, NSH), kmax), [(u, d, 5, kf) for u in (False, True) for kf in (0, 0, sh + NSH, sh + 5 * NSH, sh + 40 * NSH)], f"E2-fault: {opname} of a module-bearing value (nesting depth {d}) aborted at the kf-th executed statement of library code, kf symbolic in [1,{kmax}] with kf % {NSH} == {sh}; baseline absent / user reducer symbolic; table checked after the abort has unwound and after one later copy", expect=set(), timeout=T, per_path=90, group=f"C20.fault.{opname}"))
     for opname in ("deepcopy", "construct") if tier == "quick" else OPS:
         for d in depths:
             if tier == "quick" and (opname, d) not in (("deepcopy", 1), ("construct", 0)):
+                continue
+            if tier == "thorough" and d == 2 and opname != "deepcopy":
                 continue
             for sh in range(NSH):
                 obs.append(Ob(f"C20.preempt.{opname}.depth{d}.shard{sh}of{NSH}", make_preempt(opname, d, (sh, NSH), kmax), [(u, d, 5, k) for u in (False, True) for k in (0, 0, sh + NSH, sh + 5 * NSH, sh + 40 * NSH)], f"E2-preempt (LIFO-nested, 2 threads): thread A performs {opname} on a module-bearing value (depth {d}) and is preempted at its k-th executed library statement (k symbolic in [1,{kmax}], k % {NSH} == {sh}); thread B runs two complete copies of module-bearing values there; a B that needs a lock held by A = infeasible schedule (skipped)", expect=set(), timeout=T, per_path=90, group=f"C20.preempt.{opname}"))
